@@ -11,6 +11,8 @@ EXTENDS Auth, Controls, TLC, Json
 CONSTANT Emit
 
 (* ---------------- cells ---------------- *)
+(* pm = how the price is unavailable: the TWA record is flagged inactive, or there is no record at all *)
+PriceModes == {"na", "inactive", "missing"}
 OwnCells  == {[m |-> "own", msg |-> r.id, signer |-> s] : r \in OwnerRows, s \in Signers}
 (* des = the contract the statement designates for the variant (tells the harness which cell is the non-vacuity reference) *)
 PrivCells == {[m |-> "priv", v |-> x.v, chain |-> c, sender |-> s, des |-> Designated(x.cls)] : x \in Variants, c \in Chains, s \in Senders}
@@ -19,12 +21,12 @@ KillCells == {[m |-> "kill", sender |-> s] : s \in KillSenders}
 ExecRows    == {r \in Rows : r.exec}
 ProdsOf(r)  == IF r.pk = "vault" /\ r.px = IO THEN {"oracle", "fixed"} ELSE {"na"}
 RolesOf(r)  == IF r.pk \in {"vault", "borrow"} THEN IO ELSE IF r.pk \in {"lend", "stable"} THEN I ELSE {}
-(* pm = how the price is unavailable: the TWA record is flagged inactive, or there is no record at all *)
-PriceModes == {"na", "inactive", "missing"}
 CtlCells  == {[m |-> "ctl", h |-> r.id, app |-> r.app, prod |-> p, breaker |-> b, esm |-> e, off |-> o, pm |-> pm] :
                  r \in ExecRows, p \in Products, b \in BOOLEAN, e \in EsmStates, o \in SUBSET IO, pm \in PriceModes}
 CtlCellsOK == {c \in CtlCells : c.prod \in ProdsOf(Row(c.h)) /\ c.off \subseteq RolesOf(Row(c.h)) /\ (c.pm = "na" <=> c.off = {})}
-HookCells == {[m |-> "hook", hook |-> h, app |-> HookApp(h), breaker |-> b, esm |-> e] : h \in Hooks, b \in BOOLEAN, e \in EsmStates}
+HookCells == {[m |-> "hook", hook |-> h, app |-> HookApp(h), breaker |-> b, esm |-> e, off |-> o, pm |-> pm] :
+                 h \in Hooks, b \in BOOLEAN, e \in EsmStates, o \in SUBSET I, pm \in PriceModes}
+HookCellsOK == {c \in HookCells : (c.pm = "na" <=> c.off = {}) /\ (c.off # {} => HookNeedsPrice(c.hook))}
 
 CtlOf(c) == Ctl(c.breaker, c.esm, c.off)
 
@@ -46,7 +48,7 @@ DoKill(c) == LET ok == ImplKillOk(c.sender) IN
             /\ cell' = c /\ res' = [ok |-> ok] /\ st' = IF ok THEN [st EXCEPT !.ver = st.ver + 1] ELSE st
 DoCtl(c) == LET o == Step(st, Row(c.h), c.prod, CtlOf(c)) IN
             /\ cell' = c /\ res' = [ok |-> o.ok] /\ st' = o.st
-DoHook(c) == LET idle == ImplHookIdle(c.hook, Ctl(c.breaker, c.esm, {})) IN
+DoHook(c) == LET idle == ImplHookIdle(c.hook, Ctl(c.breaker, c.esm, c.off)) IN
             /\ cell' = c /\ res' = [ok |-> ~idle] /\ st' = IF idle THEN st ELSE [st EXCEPT !.ver = st.ver + 1]
 
 Next == /\ cell.m = "init"
@@ -54,7 +56,7 @@ Next == /\ cell.m = "init"
            \/ \E c \in PrivCells : DoPriv(c) /\ Out(c)
            \/ \E c \in KillCells : DoKill(c) /\ Out(c)
            \/ \E c \in CtlCellsOK : DoCtl(c) /\ Out(c)
-           \/ \E c \in HookCells : DoHook(c) /\ Out(c)
+           \/ \E c \in HookCellsOK : DoHook(c) /\ Out(c)
 Spec == Init /\ [][Next]_vars
 
 (* ---------------- meta-properties of the tables ---------------- *)
@@ -75,7 +77,7 @@ DesignC12 ==
   /\ cell.m = "kill" => KillOnlyAdmin(cell.sender, res.ok)
 DesignC14 ==
   /\ cell.m = "ctl"  => (MustReject(Row(cell.h), cell.prod, CtlOf(cell)) => ~res.ok)
-  /\ cell.m = "hook" => (HookMustIdle(cell.hook, Ctl(cell.breaker, cell.esm, {})) => ~res.ok)
+  /\ cell.m = "hook" => (HookMustIdle(cell.hook, Ctl(cell.breaker, cell.esm, cell.off)) => ~res.ok)
 (* the named deviation: outside the two known networks the dispatcher has no sender guard at all *)
 FailOpenElsewhere == cell.m = "priv" => (PrivilegedElsewhere(cell.chain, cell.sender, res.ok) <=> (cell.chain \in MainTest \/ cell.sender = "admin"))
 =============================================================================
